@@ -232,6 +232,7 @@ inline Outcome compare_session(const Case& c, Violations& V, Stats& S, const cha
         if (ph >= 1) {
             // switch micro-step
             if (ph == 1) copy = stack;
+            if (ph == 1 && P.type == "legacy" && (c.flags & F_SIGPUSHONLY) && !is_push_only(P.scripts[0])) re = Err::SIG_PUSHONLY;   // consensus rejects up front; the session shows it where the scriptSig ends
             if (ph == 2) {
                 if (stack.empty() || !cast_to_bool(stack.back())) re = Err::EVAL_FALSE;
                 else if (!is_push_only(P.scripts[0])) re = Err::SIG_PUSHONLY;   // BIP16: scriptSig of a P2SH spend must be push-only
